@@ -189,6 +189,32 @@ def run(ctx, rep):
             rep.violation('R3.6', vkey('R3.6', TR.name, 'first-cluster-none', ''), TR.loc(TR.span),
                           'truncating at offset 0 does not clear the entry\'s first cluster')
 
+    # ---------------- R3.9 long-name slots: unused units are 0xFFFF after a single 0x0000 terminator
+    LG = facts.fns.get('<fatfs::dir::LfnEntriesGenerator as core::iter::traits::iterator::Iterator>::next')
+    if LG is not None:
+        part_len = facts.consts.get('fatfs::dir_entry::LFN_PART_LEN', {}).get('val', 13)
+        pads = []
+        for bi in LG.reachable():
+            for s_ in LG.blocks[bi]['stmts']:
+                if s_['k'] == 'assign' and s_['rv']['k'] == 'repeat':
+                    c = op_const(s_['rv']['a'])
+                    if s_['rv'].get('n') == part_len:
+                        pads.append((s_['lhs']['l'], c.get('val') if c else None, s_['rv'].get('n')))
+        buf = [l for l, v, n in pads if v == 0xFFFF]
+        term = False
+        dd = Deps(LG)
+        for bi in LG.reachable():
+            for s_ in LG.blocks[bi]['stmts']:
+                if s_['k'] == 'assign' and s_['lhs']['p'] and any('idx' in e for e in s_['lhs']['p']) and s_['lhs']['l'] in buf \
+                        and s_['rv']['k'] == 'use' and op_const(s_['rv']['a']) is not None and op_const(s_['rv']['a']).get('val') == 0:
+                    term = True
+        ok = bool(buf) and term
+        rep.oblige('R3.9', LG.name, ok=ok, nontrivial=True, sample={'fn': LG.name, 'pad_buffers': pads, 'terminator': term})
+        if not ok:
+            rep.violation('R3.9', vkey('R3.9', LG.name, 'lfn-padding', ''), LG.loc(LG.span),
+                          'long-name slots must be filled with 0xFFFF behind a single 0x0000 terminator (found part buffers '
+                          '%s, terminator store: %s): other implementations reject or mis-decode such names' % (pads, term))
+
     # ---------------- R3.7 contiguous run counter
     FF = facts.fns.get('fatfs::dir::Dir::find_free_entries')
     if FF is None:
